@@ -353,19 +353,19 @@ func checkSessionLifecycle(c *Ctx, res *report.Result) {
 	if wc != nil {
 		type step struct {
 			name string
-			pred func(ssa.CallInstruction) bool
+			pred func(ssa.CallInstruction, ssa.Value) bool
 		}
 		steps := []step{
-			{"s.cancel()", func(ci ssa.CallInstruction) bool { _, ok := isFieldCall(ci, "cancel"); return ok }},
-			{"s.session.Close()", func(ci ssa.CallInstruction) bool {
+			{"s.cancel()", func(ci ssa.CallInstruction, _ ssa.Value) bool { _, ok := isFieldCall(ci, "cancel"); return ok }},
+			{"s.session.Close()", func(ci ssa.CallInstruction, _ ssa.Value) bool {
 				cc := ci.Common()
-				if cal := flow.StaticCallee(cc); cal != nil && cal.Name() == "Close" && flow.NamedIs(cal.Signature.Recv().Type(), "github.com/hashicorp/yamux", "Session") {
+				if cal := flow.StaticCallee(cc); cal != nil && cal.Name() == "Close" && cal.Signature.Recv() != nil && flow.NamedIs(cal.Signature.Recv().Type(), "github.com/hashicorp/yamux", "Session") {
 					_, fld, ok := flow.FieldLoadOf(cc.Args[0])
 					return ok && fld == "session"
 				}
 				return false
 			}},
-			{"s.conn.Close()", func(ci ssa.CallInstruction) bool {
+			{"s.conn.Close()", func(ci ssa.CallInstruction, _ ssa.Value) bool {
 				cc := ci.Common()
 				if cc.IsInvoke() && cc.Method.Name() == "Close" {
 					_, fld, ok := flow.FieldLoadOf(cc.Value)
@@ -373,23 +373,55 @@ func checkSessionLifecycle(c *Ctx, res *report.Result) {
 				}
 				return false
 			}},
-			{"afterShutdown()", func(ci ssa.CallInstruction) bool {
+			{"afterShutdown()", func(ci ssa.CallInstruction, cb ssa.Value) bool {
 				cc := ci.Common()
-				return !cc.IsInvoke() && cc.Value == ssa.Value(wc.Params[1])
+				return cb != nil && !cc.IsInvoke() && cc.Value == cb
 			}},
 		}
-		for _, st := range steps {
-			var hit ssa.CallInstruction
-			for _, call := range flow.Calls(wc) {
-				if st.pred(call) {
-					hit = call
+		// onEveryPath: fn executes a call satisfying pred before every return
+		onEveryPath := func(fn *ssa.Function, pred func(ssa.CallInstruction) bool) bool {
+			found := false
+			isHit := func(x ssa.Instruction) bool {
+				ci, ok := x.(ssa.CallInstruction)
+				if _, isGo := x.(*ssa.Go); isGo || !ok {
+					return false
+				}
+				return pred(ci)
+			}
+			for _, call := range flow.Calls(fn) {
+				if isHit(call) {
+					found = true
 				}
 			}
-			ok := hit != nil
-			if ok {
-				r := flow.FindPath(flow.Point{Block: wc.Blocks[0]}, flow.IsReturn, func(x ssa.Instruction) bool { return x == ssa.Instruction(hit) }, nil)
-				ok = !r.Found
+			if !found {
+				return false
 			}
+			return !flow.FindPath(flow.Point{Block: fn.Blocks[0]}, flow.IsReturn, isHit, nil).Found
+		}
+		for _, st := range steps {
+			st := st
+			ok := onEveryPath(wc, func(ci ssa.CallInstruction) bool {
+				if st.pred(ci, wc.Params[1]) {
+					return true
+				}
+				// a helper of the same package that is handed the session (and the callback) and performs the step on
+				// every one of its paths stands for it
+				h := flow.StaticCallee(ci.Common())
+				if _, isCall := ci.(*ssa.Call); !isCall || h == nil || h.Pkg != wc.Pkg || len(h.Blocks) == 0 || h == wc {
+					return false
+				}
+				var cb ssa.Value
+				sess := false
+				for j, a := range ci.Common().Args {
+					if a == ssa.Value(wc.Params[1]) && j < len(h.Params) {
+						cb = h.Params[j]
+					}
+					if a == ssa.Value(wc.Params[0]) {
+						sess = true
+					}
+				}
+				return sess && onEveryPath(h, func(ci2 ssa.CallInstruction) bool { return st.pred(ci2, cb) })
+			})
 			res.Check(ok, rule, "waitAndCleanup: "+st.name+" on every path", fnPos(c.Prog, wc), "executed before the function returns on every path", "waitAndCleanup can finish without "+st.name+": a dead session would keep its socket or its permit")
 		}
 	}
